@@ -137,6 +137,13 @@ def create_python_module(module_name,
     # Create the parent directory if it doesn't exist
     os.makedirs(location, exist_ok=True)
 
+    # An earlier rendering under this name may have been imported already. Python trusts the byte code cached in
+    # __pycache__ as long as the source has the same size and the same modification time in whole seconds, so a model
+    # rendered again within that second with code of equal length (x - 2.0 -> x - 3.0) would be shadowed by the old one.
+    # The numba cache of the earlier functions lives there too. Re-rendering replaces all of it.
+    import shutil
+    shutil.rmtree(os.path.join(location, '__pycache__'), ignore_errors=True)
+
     # Create an empty __init__.py file
     init_path = os.path.join(location, "__init__.py")
     with open(init_path, "w") as file:
